@@ -186,6 +186,10 @@ func c18One(c *ctx, rn c18Run) {
 			return
 		}
 	}
+	if err := waitTLSServing("web.test", httpsA); err != nil {
+		c.R.Inconcl("%s: %v", desc, err)
+		return
+	}
 	if !rn.NoTCP {
 		// the route history before shutdown: the tcp route on the static listener's port goes away; the tcp-dynamic refresh
 		// loop (200ms) sees a port that has lost its route
